@@ -222,9 +222,16 @@ PowVarCases ==
                 [x |-> x, a |-> a, b |-> b, positive |-> RLt(RZero, a.v), one |-> a.v = ROne,
                  e |-> IF a.v = ROne THEN PowVarJet(a, b) ELSE ZeroJet]]] : la \in PowVarBases, lb \in PowVarExps}
 
+\* a power as the EXPONENT of a power: pow(a, pow(b, c)) = a ** (b ** c), not (a ** b) ** c  (constants, exact integers)
+RECURSIVE IntPow(_, _)
+IntPow(b, k) == IF k = 0 THEN 1 ELSE b * IntPow(b, k - 1)
+PowTowerCases == {[a |-> t[1], b |-> t[2], c |-> t[3], v |-> IntPow(t[1], IntPow(t[2], t[3])), other |-> IntPow(IntPow(t[1], t[2]), t[3])] :
+                    t \in {u \in {2, 3, -2} \X {2, 3} \X {2, 3} : ~(u[2] = 3 /\ u[3] = 3)}}      \* 3 ** 27 leaves TLC's integers
+
 EmitAll == IF "EMIT" \in DOMAIN IOEnv /\ IOEnv.EMIT = "1"
            THEN /\ ndJsonSerialize(IOEnv.VERIF_OUT \o "/cases.ndjson", SetToSeq({CaseOf(tr) : tr \in T0 \cup T1(0)}))
                 /\ ndJsonSerialize(IOEnv.VERIF_OUT \o "/powvar.ndjson", SetToSeq(PowVarCases))
+                /\ ndJsonSerialize(IOEnv.VERIF_OUT \o "/powtower.ndjson", SetToSeq(PowTowerCases))
            ELSE TRUE
 ASSUME EmitAll
 EmitCase == (done /\ level >= 2) => PrintT(<<"CASE", ToJson([tree |-> tree, offers |-> DefOffers(tree), rows |-> [i \in 1..Cardinality(Lattice) |-> Row(SetToSeq(Lattice)[i])]])>>)
